@@ -10,7 +10,8 @@ EXTENDS ExprEval, Arith, TLC, Json, IOUtils, FiniteSets
 
 Rec == ndJsonDeserialize(IOEnv.OBS)
 VARIABLE l
-MCKnown == { <<"s","i","z","e">>, <<"h","a","r","d","l","i","n","k","s">>, <<"l","e","n","g","t","h">>, <<"n","a","m","e">>, <<"p","a","t","h">> }
+MCKnown == { <<"s","i","z","e">>, <<"h","a","r","d","l","i","n","k","s">>, <<"l","e","n","g","t","h">>, <<"n","a","m","e">>, <<"p","a","t","h">>,
+             <<"l","i","n","e","_","c","o","u","n","t">> }
 
 Verdict(r) ==
   LET w == r.world
@@ -20,7 +21,7 @@ Verdict(r) ==
       IdOf(c) == IF \E n \in all : paths[n] = c THEN CHOOSE n \in all : paths[n] = c ELSE 0
       pf == ParseFields(LexAll(<<r.queryc>>))
       ncol == Len(pf.list)
-      Entry(n) == [size |-> r.snapshot[n].sizen, hardlinks |-> r.snapshot[n].nlinkn, name |-> NameC(w, n)]
+      Entry(n) == [size |-> r.snapshot[n].sizen, hardlinks |-> r.snapshot[n].nlinkn, lines |-> CountByte(w.nodes[n].content, 10), name |-> NameC(w, n)]
       bad == IF ~pf.ok THEN {}
              ELSE { i \in 1 .. Len(rows) : IdOf(rows[i][1]) # 0 /\ Len(rows[i]) = ncol /\
                       LET vs == RowVals(pf.list, Entry(IdOf(rows[i][1])), {}) IN
